@@ -148,3 +148,13 @@ Proof.
   rewrite L3, skipn_length in E. lia.
 Qed.
 Print Assumptions c08_lastack_close_only_when_data_acked.
+
+(* ---- link between the two halves: whatever a sender step hands to the muxer (first transmissions, window fills,
+   timeout and duplicate-ack retransmissions, the FIN) is, up to the RTR/queued flags, a frame of its
+   retransmission buffer after that step — hence, by c08_retx_buffer_exact, a frame (number mod 2^32, bytes) of
+   the written stream, which is exactly the kind of arrival c08_reassembly_prefix quantifies over. *)
+Theorem c08_emitted_from_buffer : forall (m : nat) (s : sender) (o : sop),
+  Forall (fun e : emit => In (sf_proj (snd e)) (map sf_proj (s_frames (fst (fst (sstep_m m s o))))))
+         (snd (fst (sstep_m m s o))).
+Proof. exact emitted_from_buffer. Qed.
+Print Assumptions c08_emitted_from_buffer.
